@@ -5,6 +5,7 @@ import (
 	"fmt"
 	oldrand "math/rand"
 	"math/rand/v2"
+	"os"
 	"sort"
 	"testing"
 	"testing/synctest"
@@ -126,6 +127,9 @@ func ExecRun(t *testing.T, spec RunSpec, known *KnownFindings) *RunResult {
 		synctest.Test(t, func(t *testing.T) {
 			pol, depth := policyOf(&sc.Cfg)
 			cfg := simrt.Config{Policy: pol, PCTDepth: depth, KeepEvents: 60, MaxSteps: 400000}
+			if os.Getenv("VERIF_KEEP_EVENTS") != "" {
+				cfg.KeepEvents = 1 << 20
+			}
 			if depth < 0 {
 				cfg.PCTDepth, cfg.CoRelease = 0, true
 			}
